@@ -247,7 +247,10 @@ structure Rel (s : State) (sp : InSt) (outW : Option Int) : Prop where
   far : s.missingFar + endedCount sp.reps = s.n
   farPos : 0 < s.missingFar
   bound : ∀ p ∈ sp.reps, ∀ w, p.lw = some w → w ≤ TS_MAX
-  outW : ∀ w, outW = some w → ∃ f, s.frontier.front = some f ∧ w ≤ f
+  /-- the frontier is what the block has been told, or is about to be told (pending) -/
+  eff : s.frontier.front = (match s.pending with | some p => some p | none => outW)
+  /-- a pending announcement is strictly above the last emitted watermark -/
+  pendGt : ∀ p w, s.pending = some p → outW = some w → w < p
 
 theorem latestOf_default : latestOf ({} : Rep) = none := rfl
 
@@ -263,7 +266,7 @@ theorem compute_replicate_none (n : Nat) (h : 0 < n) : compute (List.replicate n
   | succ n => simp [List.replicate_succ]
 
 theorem rel_init (n : Nat) (h : 0 < n) : Rel (init n) (InSt.init n) none := by
-  refine ⟨by simp [InSt.init, init], h, ?_, ?_, ?_, h, ?_, fun w hw => (nomatch hw)⟩
+  refine ⟨by simp [InSt.init, init], h, ?_, ?_, ?_, h, ?_, rfl, fun p w hp => by simp [init] at hp⟩
   · simp [init, Frontier.new, InSt.init, latestOf_default]
   · simp only [init, Frontier.new]; exact (compute_replicate_none n h).symm
   · simp [init, InSt.init, endedCount_replicate]
@@ -320,13 +323,28 @@ theorem getElem?_map_latest {reps : List Rep} {r : Nat} {p : Rep} (h : reps[r]? 
     (reps.map latestOf)[r]? = some (latestOf p) := by
   simp [List.getElem?_map, h]
 
-/-- data element or anything that only sets `dirty`: the frontier entries are untouched -/
+/-- the last emitted watermark is below the frontier (derived form of `eff`/`pendGt`) -/
+theorem Rel.outW_le {s : State} {sp : InSt} {outW : Option Int} (rel : Rel s sp outW) :
+    ∀ w, outW = some w → ∃ f, s.frontier.front = some f ∧ w ≤ f := by
+  intro w hw
+  have he := rel.eff
+  cases hp : s.pending with
+  | none => rw [hp] at he; simp only at he; exact ⟨w, by rw [he, hw], Int.le_refl _⟩
+  | some p =>
+    rw [hp] at he; simp only at he
+    exact ⟨p, he, Int.le_of_lt (rel.pendGt p w hp hw)⟩
+
+/-- data element or anything that only sets `dirty` in the contract state; the block may have been
+    told a pending watermark at the same time (new `pending`/`outW`) -/
 theorem rel_set_dirty {s : State} {sp : InSt} {outW : Option Int} {r : Nat} {p : Rep}
-    (rel : Rel s sp outW) (hp : sp.reps[r]? = some p) :
-    Rel s { sp with reps := sp.reps.set r { p with dirty := true } } outW := by
+    (rel : Rel s sp outW) (hp : sp.reps[r]? = some p) {pend' outW' : Option Int}
+    (heff : s.frontier.front = (match pend' with | some q => some q | none => outW'))
+    (hgt : ∀ q w, pend' = some q → outW' = some w → w < q) :
+    Rel { s with pending := pend' } { sp with reps := sp.reps.set r { p with dirty := true } } outW' := by
   have hlat : latestOf { p with dirty := true } = latestOf p := rfl
-  refine ⟨by simp [rel.len], rel.npos, ?_, rel.front, ?_, rel.farPos, ?_, rel.outW⟩
-  · rw [rel.latest, List.map_set, hlat]
+  refine ⟨by simp [rel.len], rel.npos, ?_, rel.front, ?_, rel.farPos, ?_, heff, hgt⟩
+  · show s.frontier.latest = _
+    rw [rel.latest, List.map_set, hlat]
     exact (set_same (getElem?_map_latest hp)).symm
   · have := endedCount_set_same (p' := { p with dirty := true }) hp rfl
     have h2 := rel.far
@@ -341,7 +359,7 @@ theorem rel_set_termd {s : State} {sp : InSt} {outW : Option Int} {r : Nat} {p :
     (rel : Rel s sp outW) (hp : sp.reps[r]? = some p) :
     Rel { s with missingTerm := k } { sp with reps := sp.reps.set r { p with termd := true } } outW := by
   have hlat : latestOf { p with termd := true } = latestOf p := rfl
-  refine ⟨by simp [rel.len], rel.npos, ?_, rel.front, ?_, rel.farPos, ?_, rel.outW⟩
+  refine ⟨by simp [rel.len], rel.npos, ?_, rel.front, ?_, rel.farPos, ?_, rel.eff, rel.pendGt⟩
   · show s.frontier.latest = _
     rw [rel.latest, List.map_set, hlat]
     exact (set_same (getElem?_map_latest hp)).symm
@@ -354,7 +372,6 @@ theorem rel_set_termd {s : State} {sp : InSt} {outW : Option Int} {r : Nat} {p :
     · exact rel.bound q h w hw
     · subst h; exact rel.bound p (List.mem_of_getElem? hp) w hw
 
-/-- what `update` does on an entry that is not an old watermark -/
 theorem update_fresh {f : Frontier} {r : Nat} {t : Int} {x : Option Int}
     (hx : f.latest[r]? = some x) (hfresh : ∀ t', x = some t' → t' < t) :
     f.update r t = (⟨f.latest.set r (some t), compute (f.latest.set r (some t))⟩,
@@ -374,51 +391,61 @@ namespace Noir.Start
 open Noir.StartSpec
 variable {α : Type}
 
-/-- a frontier announcement keeps the output watermark-safe and re-establishes `outW ≤ front` -/
-theorem announce_ok {front front' outW : Option Int}
-    (hout : ∀ w, outW = some w → ∃ f, front = some f ∧ w ≤ f)
-    (hmono : ∀ f f', front = some f → front' = some f' → f ≤ f')
-    (hsome : ∀ f, front = some f → ∃ f', front' = some f') :
-    let out : List (Elem α) := match announce front front' with | some t' => [.wm t'] | none => []
-    wmSafeGo outW out = true ∧ ∀ w, wmAfter outW out = some w → ∃ f, front' = some f ∧ w ≤ f := by
-  intro out
-  cases hf : front with
+theorem announce_some {a b : Option Int} {f : Int} (h : announce a b = some f) : b = some f := by
+  unfold announce at h
+  split at h
+  · exact h ▸ rfl
+  · split at h
+    · cases h; rfl
+    · cases h
+  · cases h
+
+theorem announce_some_ne {a b : Option Int} {f g : Int} (h : announce a b = some f) (ha : a = some g) :
+    g ≠ f := by
+  subst ha
+  cases b with
+  | none => simp [announce] at h
+  | some n =>
+    simp only [announce] at h
+    by_cases hgn : g = n
+    · simp [hgn] at h
+    · simp [hgn] at h; omega
+
+theorem announce_none {a b : Option Int} (h : announce a b = none)
+    (hs : ∀ g, a = some g → ∃ g', b = some g') : a = b := by
+  cases a with
   | none =>
-    have hW : outW = none := by
-      cases hw : outW with
-      | none => rfl
-      | some w => obtain ⟨f, h1, _⟩ := hout w hw; rw [hf] at h1; cases h1
-    cases hf' : front' with
-    | none =>
-      have : out = [] := by simp [out, hf, hf', announce]
-      rw [this, hW]; simp [wmSafeGo, wmAfter]
-    | some f' =>
-      have : out = [.wm f'] := by simp [out, hf, hf', announce]
-      rw [this, hW]
-      refine ⟨by simp [wmSafeGo], ?_⟩
-      intro w hw; simp [wmAfter] at hw; exact ⟨f', rfl, by omega⟩
-  | some f =>
-    obtain ⟨f', hf'⟩ := hsome f hf
-    have hle := hmono f f' hf hf'
-    by_cases heq : f = f'
-    · have : out = [] := by simp [out, hf, hf', announce, heq]
-      rw [this]
-      refine ⟨by simp [wmSafeGo], ?_⟩
-      intro w hw
-      simp only [wmAfter] at hw
-      obtain ⟨g, hg, hwg⟩ := hout w hw
-      rw [hf] at hg; cases hg
-      exact ⟨f', hf', by omega⟩
-    · have : out = [.wm f'] := by simp [out, hf, hf', announce, heq]
-      rw [this]
-      constructor
-      · cases hw : outW with
-        | none => simp [wmSafeGo]
-        | some w =>
-          obtain ⟨g, hg, hwg⟩ := hout w hw
-          rw [hf] at hg; cases hg
-          simp [wmSafeGo]; omega
-      · intro w hw; simp [wmAfter] at hw; exact ⟨f', hf', by omega⟩
+    cases b with
+    | none => rfl
+    | some n => simp [announce] at h
+  | some o =>
+    obtain ⟨g', hg'⟩ := hs o rfl
+    subst hg'
+    simp only [announce] at h
+    split at h
+    · cases h
+    · rename_i heq; simp at heq; rw [heq]
+
+/-- every data element of a replica that has not ended is strictly above the frontier -/
+theorem front_lt_ts {s : State} {sp : InSt} {outW : Option Int} {r : Nat} {p : Rep} {t : Int}
+    (rel : Rel s sp outW) (hp : sp.reps[r]? = some p) (hpe : p.ended = false)
+    (habove : above p.lw t = true) : ∀ f, s.frontier.front = some f → f < t := by
+  intro f hf
+  rw [rel.front] at hf
+  obtain ⟨hall, _, hlow⟩ := compute_some hf
+  have hlatr : s.frontier.latest[r]? = some (latestOf p) := by
+    rw [rel.latest]; exact getElem?_map_latest hp
+  have hmem : latestOf p ∈ s.frontier.latest := List.mem_of_getElem? hlatr
+  have hsome := hall _ hmem
+  simp only [latestOf, hpe, Bool.false_eq_true, if_false] at hsome hmem
+  cases hlw : p.lw with
+  | none => rw [hlw] at hsome; simp at hsome
+  | some lw =>
+    rw [hlw] at hmem
+    have := hlow lw hmem
+    rw [hlw] at habove
+    simp only [above, decide_eq_true_eq] at habove
+    omega
 
 /-- The simulation step: a contract-respecting arrival keeps the output watermark-safe and the
     relation between the code's state and the contract state. -/
@@ -458,8 +485,23 @@ theorem step_ok {s : State} {sp sp' : InSt} {outW : Option Int} {r : Nat} {e : E
         split at hin
         · cases hin
         · cases hin
-          simp only [step, hT, if_false, wmSafeGo, wmAfter, Bool.and_self, true_and]
-          right; exact rel_set_dirty rel hp
+          simp only [step, hT, if_false]
+          cases hpend : s.pending with
+          | none =>
+            simp only [wmSafeGo, wmAfter, true_and]
+            right
+            have := rel_set_dirty (pend' := s.pending) (outW' := outW) rel hp rel.eff rel.pendGt
+            rw [hpend] at this
+            have hs : ({ s with pending := none } : State) = s := by cases s; simp_all
+            rw [hs] at this; exact this
+          | some q =>
+            have he := rel.eff; rw [hpend] at he; simp only at he
+            refine ⟨?_, Or.inr ?_⟩
+            · cases hw : outW with
+              | none => simp [wmSafeGo]
+              | some w => have := rel.pendGt q w hpend hw; simp [wmSafeGo]; omega
+            · simp only [wmAfter]
+              exact rel_set_dirty (pend' := none) (outW' := some q) rel hp he (fun _ _ h => by cases h)
       | ts a t =>
         simp only at hin
         split at hin
@@ -468,30 +510,34 @@ theorem step_ok {s : State} {sp sp' : InSt} {outW : Option Int} {r : Nat} {e : E
           split at hin
           · rename_i hok
             cases hin
-            simp only [step, hT, if_false, wmAfter]
-            refine ⟨?_, Or.inr (rel_set_dirty rel hp)⟩
-            -- the element is above the last emitted watermark
             have hpe : p.ended = false := by
               cases h : p.ended <;> simp [h] at hne ⊢
             simp only [Bool.and_eq_true, decide_eq_true_eq] at hok
-            cases hw : outW with
-            | none => simp [wmSafeGo]
-            | some w =>
-              obtain ⟨f, hf, hwf⟩ := rel.outW w hw
-              rw [rel.front] at hf
-              obtain ⟨hall, _, hlow⟩ := compute_some hf
-              have hmem : latestOf p ∈ s.frontier.latest := List.mem_of_getElem? hlatr
-              have hsome := hall _ hmem
-              simp only [latestOf, hpe, Bool.false_eq_true, if_false] at hsome hmem
-              cases hlw : p.lw with
-              | none => rw [hlw] at hsome; simp at hsome
-              | some lw =>
-                rw [hlw] at hmem
-                have := hlow lw hmem
-                have habove := hok.2
-                rw [hlw] at habove
-                simp only [above, decide_eq_true_eq] at habove
-                simp [wmSafeGo]; omega
+            have hlt := front_lt_ts rel hp hpe hok.2
+            simp only [step, hT, if_false]
+            cases hpend : s.pending with
+            | none =>
+              refine ⟨?_, Or.inr ?_⟩
+              · cases hw : outW with
+                | none => simp [wmSafeGo]
+                | some w =>
+                  obtain ⟨f, hf, hwf⟩ := rel.outW_le w hw
+                  have := hlt f hf
+                  simp [wmSafeGo]; omega
+              · simp only [wmAfter]
+                have := rel_set_dirty (pend' := s.pending) (outW' := outW) rel hp rel.eff rel.pendGt
+                rw [hpend] at this
+                have hs : ({ s with pending := none } : State) = s := by cases s; simp_all
+                rw [hs] at this; exact this
+            | some q =>
+              have he := rel.eff; rw [hpend] at he; simp only at he
+              have hq := hlt q he
+              refine ⟨?_, Or.inr ?_⟩
+              · cases hw : outW with
+                | none => simp [wmSafeGo]; omega
+                | some w => have := rel.pendGt q w hpend hw; simp [wmSafeGo]; omega
+              · simp only [wmAfter]
+                exact rel_set_dirty (pend' := none) (outW' := some q) rel hp he (fun _ _ h => by cases h)
           · cases hin
       | wm t =>
         simp only at hin
@@ -511,7 +557,6 @@ theorem step_ok {s : State} {sp sp' : InSt} {outW : Option Int} {r : Nat} {e : E
               have := hok.2; rw [ht'] at this
               simpa [above] using this
             have hupd := update_fresh hlatr hfresh
-            simp only [step, hT, if_false, hupd]
             have hmono : ∀ f f', s.frontier.front = some f →
                 compute (s.frontier.latest.set r (some t)) = some f' → f ≤ f' := by
               intro f f' hf hf'
@@ -520,21 +565,45 @@ theorem step_ok {s : State} {sp sp' : InSt} {outW : Option Int} {r : Nat} {e : E
             have hsome : ∀ f, s.frontier.front = some f →
                 ∃ f', compute (s.frontier.latest.set r (some t)) = some f' := by
               intro f hf; rw [rel.front] at hf; exact compute_set_some hf
-            obtain ⟨h1, h2⟩ := announce_ok (α := α) rel.outW hmono hsome
-            refine ⟨h1, Or.inr ?_⟩
             have hlatnew : latestOf { p with dirty := true, lw := some t } = some t := by
               simp [latestOf, hpe]
-            refine ⟨by simp [rel.len], rel.npos, ?_, rfl, ?_, rel.farPos, ?_, h2⟩
-            · show s.frontier.latest.set r (some t) = _
-              rw [List.map_set, hlatnew, rel.latest]
-            · have := endedCount_set_same (p' := { p with dirty := true, lw := some t }) hp rfl
-              have h3 := rel.far
-              simp only at this ⊢
-              omega
-            · intro q hq w hw
-              rcases List.mem_or_eq_of_mem_set hq with h | h
-              · exact rel.bound q h w hw
-              · subst h; simp only at hw; cases hw; exact hok.1
+            have hbase : ∀ (pend' outW' : Option Int),
+                compute (s.frontier.latest.set r (some t)) = (match pend' with | some q => some q | none => outW') →
+                (∀ q w, pend' = some q → outW' = some w → w < q) →
+                Rel { s with frontier := ⟨s.frontier.latest.set r (some t), compute (s.frontier.latest.set r (some t))⟩,
+                             pending := pend' }
+                  { sp with reps := sp.reps.set r { p with dirty := true, lw := some t } } outW' := by
+              intro pend' outW' heff hgt
+              refine ⟨by simp [rel.len], rel.npos, ?_, rfl, ?_, rel.farPos, ?_, heff, hgt⟩
+              · show s.frontier.latest.set r (some t) = _
+                rw [List.map_set, hlatnew, rel.latest]
+              · have := endedCount_set_same (p' := { p with dirty := true, lw := some t }) hp rfl
+                have h3 := rel.far
+                simp only at this ⊢
+                omega
+              · intro q hq w hw
+                rcases List.mem_or_eq_of_mem_set hq with h | h
+                · exact rel.bound q h w hw
+                · subst h; simp only at hw; cases hw; exact hok.1
+            simp only [step, hT, if_false, hupd]
+            cases hann : announce s.frontier.front (compute (s.frontier.latest.set r (some t))) with
+            | none =>
+              have heq := announce_none hann hsome
+              simp only [wmSafeGo, wmAfter, true_and]
+              right
+              exact hbase s.pending outW (by rw [← heq]; exact rel.eff) rel.pendGt
+            | some f' =>
+              have hf' := announce_some hann
+              refine ⟨?_, Or.inr ?_⟩
+              · cases hw : outW with
+                | none => simp [wmSafeGo]
+                | some w =>
+                  obtain ⟨f, hf, hwf⟩ := rel.outW_le w hw
+                  have h1 := hmono f f' hf hf'
+                  have h2 := announce_some_ne hann hf
+                  simp [wmSafeGo]; omega
+              · simp only [wmAfter]
+                exact hbase none (some f') hf' (fun _ _ h => by cases h)
           · cases hin
       | far =>
         simp only at hin
@@ -545,22 +614,7 @@ theorem step_ok {s : State} {sp sp' : InSt} {outW : Option Int} {r : Nat} {e : E
             cases h : p.ended <;> simp [h] at hne ⊢
           have hlat' : latestOf p = p.lw := by simp [latestOf, hpe]
           rw [hlat'] at hlatr
-          -- the frontier after `update(sender, MAX)`, whether or not it was an "old watermark"
           have hbound : ∀ t0, p.lw = some t0 → t0 ≤ TS_MAX := fun t0 h0 => rel.bound p hpm t0 h0
-          have hfr : ∃ fr, (s.frontier.update r TS_MAX).1 = fr ∧
-              fr.latest = s.frontier.latest.set r (some TS_MAX) ∧ fr.front = compute fr.latest := by
-            by_cases hmax : p.lw = some TS_MAX
-            · refine ⟨s.frontier, ?_, ?_, rel.front⟩
-              · unfold Frontier.update; rw [hlatr, hmax]; simp
-              · rw [hmax] at hlatr; exact (set_same hlatr).symm
-            · have hfresh : ∀ t', p.lw = some t' → t' < TS_MAX := by
-                intro t' ht'
-                have := hbound t' ht'
-                have : t' ≠ TS_MAX := fun h => hmax (h ▸ ht')
-                omega
-              rw [update_fresh hlatr hfresh]
-              exact ⟨_, rfl, rfl, rfl⟩
-          obtain ⟨fr, hfr1, hfr2, hfr3⟩ := hfr
           obtain ⟨p', hp'⟩ : ∃ p', p' = ({ p with dirty := true, ended := true } : Rep) := ⟨_, rfl⟩
           rw [← hp'] at hin
           have hlatnew : latestOf p' = some TS_MAX := by simp [latestOf, hp']
@@ -570,63 +624,99 @@ theorem step_ok {s : State} {sp sp' : InSt} {outW : Option Int} {r : Nat} {e : E
           have hfar := rel.far
           have hfp := rel.farPos
           have hlen : (sp.reps.set r p').length = s.n := by simp [rel.len]
-          simp only [step, hT, if_false, afterCounters]
-          have hfst : (s.frontier.update r TS_MAX).1 = fr := hfr1
-          rw [show (s.frontier.update r TS_MAX) = ((s.frontier.update r TS_MAX).1, (s.frontier.update r TS_MAX).2) from rfl]
-          simp only [hfst]
-          by_cases hall : (sp.reps.set r p').all (·.ended) = true
-          · -- last replica of the iteration: `FlushAndRestart`, reset
-            simp only [hall, if_true] at hin
-            cases hin
-            have hc : endedCount (sp.reps.set r p') = s.n := by
-              rw [← hlen]; exact endedCount_eq_length.mpr hall
-            have h0 : s.missingFar - 1 = 0 := by
-              simp only [Bool.false_eq_true, if_false, Nat.add_zero, if_true] at hcnt; omega
-            simp only [h0, hT, if_false, if_true, wmSafeGo, wmAfter, true_and]
-            right
-            refine ⟨by simp [resetIter, rel.len], rel.npos, ?_, ?_, ?_, rel.npos, ?_, fun w hw => (nomatch hw)⟩
-            · simp only [Frontier.reset, resetIter]
-              rw [map_none_eq_replicate, map_latest_reset, hfr2]
-              simp [rel.latest]
-            · simp only [Frontier.reset]
-              symm; apply compute_incomplete
-              have : 0 < fr.latest.length := by rw [hfr2]; simp [rel.latest, rel.len, rel.npos]
-              cases hl : fr.latest with
-              | nil => rw [hl] at this; simp at this
-              | cons x xs => simp
-            · simp only [resetIter]
-              rw [endedCount_reset]; rfl
-            · intro q hq w hw
-              simp only [resetIter, List.mem_map] at hq
-              obtain ⟨q0, _, rfl⟩ := hq
-              simp at hw
-          · simp only [hall, Bool.false_eq_true, if_false] at hin
-            cases hin
-            have hc : endedCount (sp.reps.set r p') ≠ s.n := by
-              rw [← hlen]; intro h; exact hall (endedCount_eq_length.mp h)
-            have hle := endedCount_le (sp.reps.set r p')
-            have h0 : s.missingFar - 1 ≠ 0 := by
-              simp only [Bool.false_eq_true, if_false, Nat.add_zero, if_true] at hcnt; omega
-            simp only [h0, hT, if_false, wmSafeGo, wmAfter, true_and]
-            right
-            refine ⟨hlen, rel.npos, ?_, hfr3, ?_, by show 0 < s.missingFar - 1; omega, ?_, ?_⟩
-            · show fr.latest = _
-              rw [hfr2, List.map_set, hlatnew, rel.latest]
-            · show s.missingFar - 1 + endedCount (sp.reps.set r p') = s.n
-              simp only [Bool.false_eq_true, if_false, Nat.add_zero, if_true] at hcnt; omega
-            · intro q hq w hw
-              rcases List.mem_or_eq_of_mem_set hq with h | h
-              · exact rel.bound q h w hw
-              · rw [h, hp'] at hw; exact rel.bound p hpm w hw
-            · intro w hw
-              obtain ⟨f, hf, hwf⟩ := rel.outW w hw
-              show ∃ f, fr.front = some f ∧ w ≤ f
-              rw [hfr3, hfr2]
+          -- what happens after the frontier was updated to `fr` with pending value `pend'`
+          have finish : ∀ (fr : Frontier) (pend' : Option Int),
+              fr.latest = s.frontier.latest.set r (some TS_MAX) → fr.front = compute fr.latest →
+              fr.front = (match pend' with | some q => some q | none => outW) →
+              (∀ q w, pend' = some q → outW = some w → w < q) →
+              wmSafeGo outW (afterCounters (α := α) { s with frontier := fr, missingFar := s.missingFar - 1, pending := pend' }).2 = true ∧
+              ((afterCounters (α := α) { s with frontier := fr, missingFar := s.missingFar - 1, pending := pend' }).1.missingTerm = 0 ∨
+               Rel (afterCounters (α := α) { s with frontier := fr, missingFar := s.missingFar - 1, pending := pend' }).1 sp'
+                 (wmAfter outW (afterCounters (α := α) { s with frontier := fr, missingFar := s.missingFar - 1, pending := pend' }).2)) := by
+            intro fr pend' hfr2 hfr3 heff' hgt'
+            simp only [afterCounters]
+            by_cases hall : (sp.reps.set r p').all (·.ended) = true
+            · -- last replica of the iteration: `FlushAndRestart`, reset
+              simp only [hall, if_true] at hin
+              cases hin
+              have hc : endedCount (sp.reps.set r p') = s.n := by
+                rw [← hlen]; exact endedCount_eq_length.mpr hall
+              have h0 : s.missingFar - 1 = 0 := by
+                simp only [Bool.false_eq_true, if_false, Nat.add_zero, if_true] at hcnt; omega
+              simp only [h0, hT, if_false, if_true, wmSafeGo, wmAfter, true_and]
+              right
+              refine ⟨by simp [resetIter, rel.len], rel.npos, ?_, ?_, ?_, rel.npos, ?_, rfl, fun _ _ h => by cases h⟩
+              · simp only [Frontier.reset, resetIter]
+                rw [map_none_eq_replicate, map_latest_reset, hfr2]
+                simp [rel.latest]
+              · simp only [Frontier.reset]
+                symm; apply compute_incomplete
+                have : 0 < fr.latest.length := by rw [hfr2]; simp [rel.latest, rel.len, rel.npos]
+                cases hl : fr.latest with
+                | nil => rw [hl] at this; simp at this
+                | cons x xs => simp
+              · simp only [resetIter]
+                rw [endedCount_reset]; rfl
+              · intro q hq w hw
+                simp only [resetIter, List.mem_map] at hq
+                obtain ⟨q0, _, rfl⟩ := hq
+                simp at hw
+            · simp only [hall, Bool.false_eq_true, if_false] at hin
+              cases hin
+              have hc : endedCount (sp.reps.set r p') ≠ s.n := by
+                rw [← hlen]; intro h; exact hall (endedCount_eq_length.mp h)
+              have hle := endedCount_le (sp.reps.set r p')
+              have h0 : s.missingFar - 1 ≠ 0 := by
+                simp only [Bool.false_eq_true, if_false, Nat.add_zero, if_true] at hcnt; omega
+              simp only [h0, hT, if_false, wmSafeGo, wmAfter, true_and]
+              right
+              refine ⟨hlen, rel.npos, ?_, hfr3, ?_, by show 0 < s.missingFar - 1; omega, ?_, heff', hgt'⟩
+              · show fr.latest = _
+                rw [hfr2, List.map_set, hlatnew, rel.latest]
+              · show s.missingFar - 1 + endedCount (sp.reps.set r p') = s.n
+                simp only [Bool.false_eq_true, if_false, Nat.add_zero, if_true] at hcnt; omega
+              · intro q hq w hw
+                rcases List.mem_or_eq_of_mem_set hq with h | h
+                · exact rel.bound q h w hw
+                · rw [h, hp'] at hw; exact rel.bound p hpm w hw
+          simp only [step, hT, if_false]
+          by_cases hmax : p.lw = some TS_MAX
+          · have hu : s.frontier.update r TS_MAX = (s.frontier, none) := by
+              unfold Frontier.update; rw [hlatr, hmax]; simp
+            rw [hu]
+            refine finish s.frontier s.pending ?_ rel.front rel.eff rel.pendGt
+            rw [hmax] at hlatr; exact (set_same hlatr).symm
+          · have hfresh : ∀ t', p.lw = some t' → t' < TS_MAX := by
+              intro t' ht'
+              have := hbound t' ht'
+              have : t' ≠ TS_MAX := fun h => hmax (h ▸ ht')
+              omega
+            have hu := update_fresh hlatr hfresh
+            have hmono : ∀ f f', s.frontier.front = some f →
+                compute (s.frontier.latest.set r (some TS_MAX)) = some f' → f ≤ f' := by
+              intro f f' hf hf'
               rw [rel.front] at hf
-              obtain ⟨f', hf'⟩ := compute_set_some (r := r) (t := TS_MAX) hf
-              exact ⟨f', hf', Int.le_trans hwf (compute_set_mono hlatr hbound hf hf')⟩
+              exact compute_set_mono hlatr hbound hf hf'
+            have hsome : ∀ f, s.frontier.front = some f →
+                ∃ f', compute (s.frontier.latest.set r (some TS_MAX)) = some f' := by
+              intro f hf; rw [rel.front] at hf; exact compute_set_some hf
+            rw [hu]
+            cases hann : announce s.frontier.front (compute (s.frontier.latest.set r (some TS_MAX))) with
+            | none =>
+              have heq := announce_none hann hsome
+              exact finish _ s.pending rfl rfl (by show compute _ = _; rw [← heq]; exact rel.eff) rel.pendGt
+            | some f' =>
+              have hf' := announce_some hann
+              have hgt : ∀ w, outW = some w → w < f' := by
+                intro w hw
+                obtain ⟨f, hf, hwf⟩ := rel.outW_le w hw
+                have h1 := hmono f f' hf hf'
+                have h2 := announce_some_ne hann hf
+                omega
+              exact finish _ (some f') rfl rfl hf' (fun q w hq hw => by cases hq; exact hgt w hw)
 
 end Noir.Start
+
 
 namespace Noir.Start
 /-- the two behaviours of `update` -/
@@ -649,14 +739,6 @@ theorem update_cases (f : Frontier) (r : Nat) (t : Int) :
           exact hfresh (fun t' h => by cases h; omega)
         simp [Frontier.update, hx, this]
 
-theorem announce_some {a b : Option Int} {f : Int} (h : announce a b = some f) : b = some f := by
-  unfold announce at h
-  split at h
-  · exact h ▸ rfl
-  · split at h
-    · cases h; rfl
-    · cases h
-  · cases h
 end Noir.Start
 
 namespace Noir.Start
